@@ -12,6 +12,7 @@ import Cctz.Model.Split
 import Cctz.Model.Loader
 import Cctz.Model.Format
 import Cctz.Model.Parse
+import Cctz.Model.TableCheck
 
 open Cctz
 
@@ -252,6 +253,12 @@ def zoneOp (st : DState) (toks : List String) : Option (DState × String) :=
       let t ← t.toInt?
       let e ← st.find id
       some (st, showCk (Tz.prevTransition e.zone t) showTransitionOpt)
+  | ["preds", id] => do
+      -- which hypotheses of the table-level theorems does this zone satisfy? (model-only op)
+      let e ← st.find id
+      let z := e.zone
+      let b (x : Bool) : String := if x then "1" else "0"
+      some (st, s!"wf={b (TableCheck.tableWFb z)} sorted={b (TableCheck.civilSortedb z)} cols={b (TableCheck.civilColsb z)} sep={b (TableCheck.separatedb z)} inrange={b (TableCheck.timesInRangeb z)} room={b (TableCheck.firstEntryRoomb z)} tame={b (TableCheck.tameb z)}")
   | ["reload", id] =>
       -- the cache: a name loaded before is answered from the map, the data source is not consulted
       match st.find id with
